@@ -444,7 +444,7 @@ func (r *Run) Finish() int {
 		ck = append(ck, k)
 	}
 	sort.Strings(ck)
-	if len(ck) <= 400 {
+	if len(ck) <= 3000 {
 		h := map[string]int64{}
 		for _, k := range ck {
 			h[k] = r.cells[k]
